@@ -273,6 +273,29 @@ class VCtxBadWriter(ContextProcessor):
         self._notify_context_update("undeclared_key", 1.0)
 
 
+class VCtxBoom(ContextProcessor):
+    """Fault component (any data type): raises VBoomError when fuse >= 1.0."""
+
+    def _process_logic(self, fuse: float = 1.0):
+        REC.add("VCtxBoom", None, {"fuse": fuse})
+        if fuse >= 1.0:
+            exc = PREBUILT.get("boom")
+            if exc is not None:
+                raise exc
+            raise VBoomError(f"ctx boom fuse={fuse}")
+
+
+class VCtxInterrupt(ContextProcessor):
+    """Fault component (any data type): raises a KeyboardInterrupt subclass."""
+
+    def _process_logic(self):
+        REC.add("VCtxInterrupt", None, {})
+        exc = PREBUILT.get("abort")
+        if exc is not None:
+            raise exc
+        raise VAbort("abort")
+
+
 # --------------------------------------------------------------------------- sinks
 class VFileSink(DataSink):
     """Appends ``<value>\\n`` to the file ``path`` (a witness that the sink really ran)."""
